@@ -293,6 +293,79 @@ func runStepSweep(c *Ctx, prop string) {
 		evals += nilEv
 	}
 
+	// short-memory / ROM pass: the upper part of the address space keeps no write.
+	// Either it reads 0 (a z80.DumbMemory shorter than 64 KiB; also handed over
+	// directly) or it holds bytes (ROM).  Pointers and PC are pulled to the border.
+	{
+		var limEv int64
+		type lim struct {
+			at   uint32
+			zero bool
+		}
+		lims := []lim{{1, true}, {2, true}, {0x20, true}, {0x100, true}, {0x4000, true}, {0x8000, true}, {0xfffe, true}, {0xffff, true},
+			{0x2000, false}, {0x8000, false}, {0xc000, false}}
+		var lmu sync.Mutex
+		Parallel(len(lims), func(li int) {
+			l := lims[li]
+			rig := NewStepRig(uint64(c.Seed) ^ 0x5107 ^ uint64(li))
+			rig.SetLimit(l.at, l.zero)
+			if l.zero {
+				rig.Direct = 1
+			}
+			r := mon.NewRng(mon.Hash(uint64(c.Seed), uint64(li), 0x5107))
+			near := func() uint16 { return uint16(l.at) + uint16(r.Intn(9)) - 4 }
+			var ev int64
+			per := c.Pick(6, 48)
+			for _, enc := range encs {
+				for k := 0; k < per; k++ {
+					sc := MakeStepCase(enc, r, r.Intn(1<<16))
+					if r.Intn(3) == 0 {
+						sc.Pre.PC = near()
+					}
+					if r.Intn(2) == 0 {
+						sc.Pre.SP = near()
+					}
+					if r.Intn(2) == 0 {
+						sc.Pre.HL.SetU16(near())
+					}
+					if r.Intn(3) == 0 {
+						sc.Pre.BC.SetU16(near())
+					}
+					if r.Intn(3) == 0 {
+						sc.Pre.DE.SetU16(near())
+					}
+					if r.Intn(2) == 0 {
+						sc.Pre.IX = near() - uint16(int8(sc.Bytes[len(sc.Bytes)-3]))
+						sc.Pre.IY = near() - uint16(int8(sc.Bytes[len(sc.Bytes)-3]))
+						if enc.Table == ref.TDDCB || enc.Table == ref.TFDCB {
+							sc.Pre.IX = near() - uint16(int8(sc.Bytes[2]))
+							sc.Pre.IY = near() - uint16(int8(sc.Bytes[2]))
+						}
+					}
+					if !l.zero && r.Intn(2) == 0 {
+						// ROM: anywhere inside it
+						sc.Pre.HL.SetU16(uint16(l.at) + uint16(r.Intn(int(65536-l.at))))
+					}
+					o := rig.Run(&sc)
+					ev++
+					if o.Bad&aspects != 0 {
+						w := rig.Witness(enc, &sc, &o)
+						kind := "rom"
+						if l.zero {
+							kind = "short-memory"
+						}
+						c.R.Violation(fmt.Sprintf("%s/%s/%s/%s", prop, kind, enc.String(), BadString(o.Bad&aspects)), w)
+					}
+				}
+			}
+			lmu.Lock()
+			limEv += ev
+			lmu.Unlock()
+		})
+		c.R.Set("steps_on_short_memory_or_rom", limEv)
+		evals += limEv
+	}
+
 	c.R.Set("evaluations", evals)
 	c.R.Set("steps", evals)
 	c.R.Set("nontrivial_steps", nontrivial)
@@ -314,7 +387,7 @@ func runStepSweep(c *Ctx, prop string) {
 	}
 	switch prop {
 	case "C01":
-		c.R.Set("rule", "every implemented encoding (930, all seven decode tables) x n boundary-biased pre-states (F and displacement cycled through all 256 values, PC straddling FFFF in ~1/8, pointers at/near 0000/FFFF/PC/SP), pseudo-random memory and device bytes, the halted indication already true in 1/16 of cases, no RETN/RETI handler registered in 1/4 of cases, a refused maskable request pending (IFF1 clear) in 1/16 of cases, 1/8 of cases also executed on z80.DumbMemory / a fully populated z80.MapMemory handed to the CPU directly (outcome must not depend on the memory's type); one emulator Step vs one reference-model Step; plus chains of 48 random implemented instructions executed by ONE CPU object on an instruction tape (post-state of a Step = pre-state of the next) to expose state leaking between consecutive operations (every ~6th Step continues on a by-value copy of the CPU struct while the old struct is scribbled over); compared: all registers, F under the tolerance mask, I, IFF1/2, IM, HALT, full memory image, bytes sent to ports. A case is non-trivial when the Step changed a register other than PC/R, wrote memory, or touched a port or data byte; distinct = distinct (encoding, case index, pre-state, device seed) hashes among the non-trivial ones (sampled 1/7 beyond the first 4096 per encoding, exact set capped at 6M: a lower bound)")
+		c.R.Set("rule", "every implemented encoding (930, all seven decode tables) x n boundary-biased pre-states (F and displacement cycled through all 256 values, PC straddling FFFF in ~1/8, pointers at/near 0000/FFFF/PC/SP), pseudo-random memory and device bytes, the halted indication already true in 1/16 of cases, no RETN/RETI handler registered in 1/4 of cases, a refused maskable request pending (IFF1 clear) in 1/16 of cases, 1/8 of cases also executed on z80.DumbMemory / a fully populated z80.MapMemory handed to the CPU directly (outcome must not depend on the memory's type); one emulator Step vs one reference-model Step; a pass where the upper part of the address space keeps no write - reading 0 (a z80.DumbMemory of length 1, 2, 20h, 100h, 4000h, 8000h, FFFEh, FFFFh, also handed over directly) or holding bytes (ROM from 2000h/8000h/C000h) - with PC and pointers pulled to the border; plus chains of 48 random implemented instructions executed by ONE CPU object on an instruction tape (post-state of a Step = pre-state of the next) to expose state leaking between consecutive operations (every ~6th Step continues on a by-value copy of the CPU struct while the old struct is scribbled over); compared: all registers, F under the tolerance mask, I, IFF1/2, IM, HALT, full memory image, bytes sent to ports. A case is non-trivial when the Step changed a register other than PC/R, wrote memory, or touched a port or data byte; distinct = distinct (encoding, case index, pre-state, device seed) hashes among the non-trivial ones (sampled 1/7 beyond the first 4096 per encoding, exact set capped at 6M: a lower bound)")
 	case "C05":
 		c.R.Set("rule", "same workload as C01 (incl. the pass with no I/O device attached: memory traffic must be unchanged); compared per Step: multiset of memory reads (addr,value), multiset of memory writes (addr,value) and the ordered port log (direction, port, value) of the emulator against the reference model's bus log; non-trivial/distinct as in C01")
 	}
@@ -400,6 +473,10 @@ func replayStep(c *Ctx, prop string) {
 	sc.PendingRefused, _ = w["pending_refused"].(bool)
 	if d, ok := w["direct"].(float64); ok {
 		rig.Direct = int(d)
+	}
+	if l, ok := w["limit"].(float64); ok && l != 0 {
+		z, _ := w["limit_zero"].(bool)
+		rig.SetLimit(uint32(l), z)
 	}
 	o := rig.Run(&sc)
 	tb, _ := w["table"].(float64)
